@@ -22,11 +22,11 @@ RULE = (
     "pattern; distinct by canonical JSON."
 )
 ASSUMPTIONS = ["os.path.splitext defines 'name without last extension'", "MemoryFS and the native filesystem list what was created"]
-MONITORS = ["asset_lookup", "exists", "repeat_read", "pack_banner"]
+MONITORS = ["asset_lookup", "exists", "repeat_read", "pack_banner", "simfile_from_directory"]
 REQUIRED = ["directory_path_not_normalized", "entry_matches_two_kinds", "multi_dot_name", "specified_other_case", "specified_in_subdir_other_case", "specified_missing_with_pattern_match",
             "specified_missing_subdir_with_pattern_match", "specified_missing_no_match", "pattern_hit", "near_miss_only",
             "no_match_none", "pack_banner_inside", "pack_banner_beside", "pack_banner_none", "pack_sibling_prefix_name", "pack_path_is_a_single_relative_component",
-            "native", "memory"]
+            "native", "memory", "simfile_read_from_directory_holding_sm_and_ssc", "simfile_read_from_directory_holding_only_sm"]
 
 IMAGE = [".png", ".jpg", ".jpeg", ".gif", ".bmp"]
 AUDIO = [".mp3", ".oga", ".ogg", ".wav"]
@@ -139,7 +139,10 @@ def cases(ctx):
             if props[k] and rng.random() < 0.15:
                 props[k] = "./" + props[k]
         yield {"kind": "dir", "tree": {"dirs": {"Song": {"dirs": sub, "files": files}}, "files": {}}, "props": props,
-               "fs": rng.choice(["native", "memory"]), "sf": rng.choice(["sm", "ssc"]), "dir_spelling": rng.choice([0, 0, 1, 2, 3])}
+               "fs": rng.choice(["native", "memory"]), "sf": rng.choice(["sm", "ssc"]), "dir_spelling": rng.choice([0, 0, 1, 2, 3]),
+               # the simfile is read from the directory itself (no simfile= argument): 'ssc' = an .sm holding other
+               # asset names is there too (written first) and the .ssc must win; 'sm' = only an .sm file
+               "from_files": rng.choice([None, None, None, "ssc", "ssc", "sm"])}
 
 
 def gen_pack(rng):
@@ -199,9 +202,61 @@ def check_dir(ctx, case, t):
     if any(e.count(".") >= 2 for e in entries):
         ctx.feat("multi_dot_name")
     ctx.begin(case, nontrivial=any_match)
-    assets = Assets(sdir, simfile=sf, filesystem=t.fs)
+    ff = case.get("from_files")
+    if ff and any(c19.kind_of(n) for n in entries):
+        ff = None  # the generated directory already holds something named like a simfile
+    if ff:
+        def put(name, s):
+            p = t.join(t.root, "Song", name)
+            if t.kind == "native":
+                with open(p, "w", encoding="utf-8") as fh:
+                    fh.write(str(s))
+            else:
+                t.fs.writetext(p, str(s), encoding="utf-8")
+
+        if ff == "ssc":
+            decoy = SMSimfile.blank()
+            for k in KINDS:
+                if k in decoy:
+                    del decoy[k]
+            names = sorted(song["files"])
+            for i, k in enumerate(KINDS):
+                if k in SMSimfile.blank():
+                    # other (existing or missing) names than the SSC's
+                    decoy[k] = names[(i * 7 + 3) % len(names)] if names and i % 2 else "decoy-missing.png"
+            put("aaa-first.sm", decoy)
+            sf2 = SSCSimfile.blank()
+            for k in KINDS:
+                if k in sf2:
+                    del sf2[k]
+            for k, v in case["props"].items():
+                sf2[k] = v
+            sf = sf2
+            put("zzz-second.ssc", sf)
+            ctx.feat("simfile_read_from_directory_holding_sm_and_ssc")
+        else:
+            sfm = SMSimfile.blank()
+            for k in KINDS:
+                if k in sfm:
+                    del sfm[k]
+            for k, v in case["props"].items():
+                if v is not None:
+                    sfm[k] = v
+            sf = sfm
+            put("only.sm", sf)
+            ctx.feat("simfile_read_from_directory_holding_only_sm")
+        mk = lambda: Assets(sdir, filesystem=t.fs)
+    else:
+        mk = lambda: Assets(sdir, simfile=sf, filesystem=t.fs)
+    assets = mk()
+    if ff:
+        ctx.mon("simfile_from_directory")
+        if not (type(assets.simfile) is type(sf) and assets.simfile == type(sf)(string=str(sf))):
+            ctx.violation("assets:simfile-read-from-directory-is-not-the-preferred-one",
+                          {"from_files": ff, "got_type": type(assets.simfile).__name__, "got_keys": list(assets.simfile.keys())[:12]})
+            return
     # a second loader object asked in the opposite order must give the same answers (no cross-kind state)
-    other = Assets(sdir, simfile=sf, filesystem=t.fs)
+    other = mk()
     rev = {}
     for k in reversed(KINDS):
         try:
